@@ -489,6 +489,15 @@ def h_surface_container(cx, scenario):
         agg(ms, tess)
         m_ctrlpts_prop(cx, ms[0], 'e')
         compare(cx, 'after_element_edit', agg(ms, tess), agg(fresh_container(list(ms)), tess))
+    elif sc == 'failed_batch_add':
+        # a batch add whose later element is rejected: the accepted ones must be reflected in every aggregate
+        bad = geo.make_surface(cx, 1, 1, cx.consts(sp['kvs'][0]), cx.consts(sp['kvs'][1]), 2, 2, cx.points('B', 4, 2), None, normalize_kv=True)
+        try:
+            ms.add([s2, bad])
+        except Exception:
+            pass
+        cx.check('accepted_element_added', len(ms) == 2, 'len %d' % len(ms))
+        compare(cx, 'after_failed_batch', agg(ms, tess), agg(fresh_container(list(ms)), tess))
     elif sc == 'sample_size':
         ms.add(s2)
         agg(ms, tess)
@@ -527,7 +536,7 @@ def instances(tier):
     for rational in (False, True):
         for sc in ('add', 'edit_element', 'sample_size', 'add_list', 'deepcopy', 'failed_batch_add'):
             out.append(inst('container %s %s' % ('rat' if rational else 'nonrat', sc), h_container, timeout=900, rational=rational, scenario=sc))
-    for sc in ('add', 'edit_element', 'sample_size', 'add+tessellation', 'edit_element+tessellation', 'sample_size+tessellation'):
+    for sc in ('add', 'edit_element', 'sample_size', 'failed_batch_add', 'add+tessellation', 'edit_element+tessellation', 'sample_size+tessellation', 'failed_batch_add+tessellation'):
         out.append(inst('surface container %s' % sc, h_surface_container, timeout=900, scenario=sc))
     if not quick:
         pair_muts = ['ctrlpts=', 'weights=', 'ctrlptsw=', 'knotvector=', 'sample_size=', 'insert_knot', 'remove_knot', 'refine_knotvector',
